@@ -543,23 +543,33 @@ def run_search_cases(chk, cases, meta_budget):
         elif not ok:
             bad.append(i)
     chk.extra["search_model_disagreements"] = chk.extra.get("search_model_disagreements", 0) + len(bad) + len(spec_bad)
-    for i in (spec_bad + bad)[:4]:
-        case = shrink(cases[i], lambda c: _search_fails(chk, c), _search_cands, budget=20)
+
+    def fails(kind):
+        def f(c):
+            tied, ok, spec = _eval3(chk, [c], [run_impl(c)], "shr")[0]
+            return (not tied) and not (spec if kind == "spec" else ok)
+        return f
+
+    for i in spec_bad[:3]:
+        # concrete failing inputs: the implementation's own output is rejected by the spec checker
+        case = shrink(cases[i], fails("spec"), _search_cands, budget=20)
         res = run_impl(case)
         tied, ok, spec = _eval3(chk, [case], [res], "jdg")[0]
-        if tied:
-            case, res = cases[i], results[i]
-            tied, ok, spec = verdicts[i]
-        if not spec:
-            chk.report(_record(chk, case, res, tied, ok, spec))
+        if tied or spec:
+            case, res, (tied, ok, spec) = cases[i], results[i], verdicts[i]
+        chk.report(_record(chk, case, res, tied, ok, spec))
     if bad and not spec_bad:
         # the model no longer describes the code, yet every explored output satisfies the spec checker
-        i = bad[0]
-        chk.report(_record(chk, cases[i], results[i], *verdicts[i]), no_failing_input=True)
+        case = shrink(cases[bad[0]], fails("model"), _search_cands, budget=20)
+        res = run_impl(case)
+        tied, ok, spec = _eval3(chk, [case], [res], "jdg")[0]
+        if tied or ok:
+            case, res, (tied, ok, spec) = cases[bad[0]], results[bad[0]], verdicts[bad[0]]
+        chk.report(_record(chk, case, res, tied, ok, spec), no_failing_input=spec)
     # metamorphic: batch element independence on the implementation
-    done = 0
+    done = nrep = 0
     for c, r in zip(cases, results):
-        if done >= meta_budget:
+        if done >= meta_budget or nrep >= 2:
             break
         if c["N"] is None or c["N"] < 2 or "out" not in r:
             continue
@@ -569,6 +579,7 @@ def run_search_cases(chk, cases, meta_budget):
         if staggered:
             chk.count("meta:elements_finish_at_different_steps")
         if not ok:
+            nrep += 1
             small = shrink(c, lambda x: not batch_independent(x, run_impl(x))[0], _search_cands, budget=20)
             r2 = run_impl(small)
             ok2, detail2, _ = batch_independent(small, r2)
